@@ -100,11 +100,20 @@ struct SlowReader {
     sleep_us: u64,
     /// the failure is a panic inside the producer instead of an `Err`
     panics: bool,
+    /// stop for that many seconds once `pos` has reached the offset
+    stall: Option<(usize, u64)>,
 }
 impl Read for SlowReader {
     fn read(&mut self, buf: &mut [u8]) -> io::Result<usize> {
         if self.sleep_us > 0 {
             thread::sleep(Duration::from_micros(self.sleep_us));
+        }
+        if let Some((at, secs)) = self.stall
+            && self.pos >= at
+        {
+            self.stall = None;
+            simkernel::count("probe.producer_stalled_for_seconds");
+            thread::sleep(Duration::from_secs(secs));
         }
         if let Some(f) = self.fail_at
             && self.pos >= f
@@ -135,6 +144,15 @@ pub fn draw_opts(chunk_hint: usize) -> StreamOpts {
 
 /// Register the producer for `payload` (resource name "res") on a fresh router.
 pub fn router_for(payload: &Payload, opts: StreamOpts) -> Router {
+    router_for_stall(payload, opts, false)
+}
+
+/// `may_stall`: a reader / writer producer sometimes stops for 3 or 5 simulated seconds,
+/// once, somewhere in mid-stream (longer than any keep-alive or retry period one might put
+/// on a `next`).
+pub fn router_for_stall(payload: &Payload, opts: StreamOpts, may_stall: bool) -> Router {
+    let total = payload.logical().len();
+    let stall: Option<(usize, u64)> = if may_stall && total > 0 && simkernel::choose(6) == 0 { Some((simkernel::choose(total as u32) as usize, pick(&[3u64, 5]))) } else { None };
     let step = pick(&[1usize, 3, 64, 4096]);
     let sleep_us = pick(&[0u64, 0, 50, 1_000]);
     let panics = simkernel::choose(3) == 0;
@@ -147,7 +165,7 @@ pub fn router_for(payload: &Payload, opts: StreamOpts) -> Router {
         Payload::Typed(v) => r.with_typed_value_stream(move |res| if res == "res" { Some(v.clone()) } else { None }, opts),
         Payload::Complex(v) => r.with_complex_value_stream(move |res| if res == "res" { Some(v.clone()) } else { None }, opts),
         Payload::Reader(data, fail_at) => r.with_reader_stream(
-            move |res| if res == "res" { Some(SlowReader { data: data.clone(), pos: 0, fail_at, step, sleep_us, panics }) } else { None },
+            move |res| if res == "res" { Some(SlowReader { data: data.clone(), pos: 0, fail_at, step, sleep_us, panics, stall }) } else { None },
             opts,
         ),
         Payload::Writer(data, fail_at) => r.with_writer_stream(
@@ -160,7 +178,15 @@ pub fn router_for(payload: &Payload, opts: StreamOpts) -> Router {
                 Some(move |w: &mut dyn Write| -> io::Result<()> {
                     let end = fail_at.unwrap_or(data.len());
                     let mut pos = 0;
+                    let mut stall = stall;
                     while pos < end {
+                        if let Some((at, secs)) = stall
+                            && pos >= at
+                        {
+                            stall = None;
+                            simkernel::count("probe.producer_stalled_for_seconds");
+                            thread::sleep(Duration::from_secs(secs));
+                        }
                         let n = step.min(end - pos);
                         w.write_all(&data[pos..pos + n])?;
                         pos += n;
@@ -280,7 +306,7 @@ fn c09_raw(case: &Case) {
     let logical = payload.logical();
     case.sample(json!({"producer": payload.kind(), "logical_len": logical.len(), "chunk_bytes": chunk, "depth": opts.session_depth,
         "compression": format!("{:?}", opts.compression), "producer_fails": payload.fails()}));
-    let (addr, server) = start_server(router_for(&payload, opts));
+    let (addr, server) = start_server(router_for_stall(&payload, opts, true));
     let Ok(mut s) = TcpStream::connect(addr) else {
         case.harness_error("connect");
         return;
@@ -470,7 +496,7 @@ fn c09_pull(case: &Case) {
     let api = simkernel::choose(3);
     case.sample(json!({"producer": payload.kind(), "logical_len": logical.len(), "chunk_bytes": chunk, "depth": opts.session_depth,
         "compression": format!("{:?}", opts.compression), "producer_fails": payload.fails(), "api": api}));
-    let (addr, server) = start_server(router_for(&payload, opts));
+    let (addr, server) = start_server(router_for_stall(&payload, opts, true));
     let Ok(client) = Client::connect(addr) else {
         case.harness_error("connect");
         return;
